@@ -75,40 +75,6 @@ static bool is_adding_file(const Patch& patch, const Options& options)
     return patch.operation == (options.reverse_patch ? Operation::Delete : Operation::Add);
 }
 
-static std::string guess_filepath(const Patch& patch, const Options& options)
-{
-    // POSIX specifies that after stripping using the '-p' option then the existence of both the old
-    // and new files are tested. If both paths exist then patch should not be able to determine
-    // any paths from this step.
-    //
-    // However, it seems from my testing that this behaviour is not followed by GNU patch, even when
-    // the --posix argument is specified. In the GNU documentation they state when following posix,
-    // they say that the order of 'old', 'new' then 'index' when trying to determine the file name
-    // to patch.
-    //
-    // This means that they do not throw any error when both files exist (which aligns with my testing).
-    // For now, this implementation matches the GNU behaviour when the --posix flag is specified. In
-    // the future, we may want to make our implementation match whatever the behaviour of GNU patch
-    // is for this path determination.
-    if (patch.old_file_path != "/dev/null" && filesystem::exists(patch.old_file_path))
-        return patch.old_file_path;
-
-    if (patch.new_file_path != "/dev/null" && filesystem::exists(patch.new_file_path))
-        return patch.new_file_path;
-
-    if (patch.index_file_path != "/dev/null" && filesystem::exists(patch.index_file_path))
-        return patch.index_file_path;
-
-    if (is_adding_file(patch, options)) {
-        // NOTE: a damaged header may leave /dev/null as the only name, which is never the file to patch.
-        const auto& path = options.reverse_patch ? patch.old_file_path : patch.new_file_path;
-        if (path != "/dev/null")
-            return path;
-    }
-
-    return {};
-}
-
 static std::string prompt_for_filepath(std::ostream& out)
 {
     while (true) {
@@ -359,15 +325,30 @@ private:
 
 class DeferredWriter {
 public:
-    void deferred_write(File&& file, const std::string& destination_path, std::function<void(const std::string&)> prepare_callback, std::function<void(const std::string&)> permission_callback)
+    void deferred_write(File&& file, const std::string& destination_path, bool is_new_name, std::function<void(const std::string&)> prepare_callback, std::function<void(const std::string&)> permission_callback)
     {
-        m_deferred_writes.push_back(FileWrite { std::move(file), destination_path, std::move(prepare_callback), std::move(permission_callback) });
+        m_deferred_writes.push_back(FileWrite { std::move(file), destination_path, is_new_name, std::move(prepare_callback), std::move(permission_callback) });
     }
 
     // The source of a rename may only be removed once its content has been written to the new name.
     void deferred_remove(const std::string& path)
     {
         m_deferred_removals.push_back(path);
+    }
+
+    // The content which the last deferred write to this path is going to write, if there is one.
+    File* pending_write_to(const std::string& path)
+    {
+        for (auto it = m_deferred_writes.rbegin(); it != m_deferred_writes.rend(); ++it) {
+            if (it->destination_path != path)
+                continue;
+            // A file which is there already and which another file is renamed or copied to is still
+            // the file a patch of the same change means, as for two files swapping their names.
+            if (it->is_new_name && filesystem::exists(path))
+                return nullptr;
+            return &it->source;
+        }
+        return nullptr;
     }
 
     bool has_deferred_write_to(const std::string& path) const
@@ -397,6 +378,7 @@ private:
     struct FileWrite {
         File source;
         std::string destination_path;
+        bool is_new_name;
         std::function<void(const std::string&)> prepare_callback;
         std::function<void(const std::string&)> permission_callback;
     };
@@ -404,6 +386,45 @@ private:
     std::vector<FileWrite> m_deferred_writes;
     std::vector<std::string> m_deferred_removals;
 };
+
+static std::string guess_filepath(const Patch& patch, const Options& options, const DeferredWriter& deferred_writer)
+{
+    // A file which an earlier patch of this run creates, but which has not been written out yet, exists as well.
+    const auto exists = [&deferred_writer](const std::string& path) {
+        return filesystem::exists(path) || deferred_writer.has_deferred_write_to(path);
+    };
+
+    // POSIX specifies that after stripping using the '-p' option then the existence of both the old
+    // and new files are tested. If both paths exist then patch should not be able to determine
+    // any paths from this step.
+    //
+    // However, it seems from my testing that this behaviour is not followed by GNU patch, even when
+    // the --posix argument is specified. In the GNU documentation they state when following posix,
+    // they say that the order of 'old', 'new' then 'index' when trying to determine the file name
+    // to patch.
+    //
+    // This means that they do not throw any error when both files exist (which aligns with my testing).
+    // For now, this implementation matches the GNU behaviour when the --posix flag is specified. In
+    // the future, we may want to make our implementation match whatever the behaviour of GNU patch
+    // is for this path determination.
+    if (patch.old_file_path != "/dev/null" && exists(patch.old_file_path))
+        return patch.old_file_path;
+
+    if (patch.new_file_path != "/dev/null" && exists(patch.new_file_path))
+        return patch.new_file_path;
+
+    if (patch.index_file_path != "/dev/null" && exists(patch.index_file_path))
+        return patch.index_file_path;
+
+    if (is_adding_file(patch, options)) {
+        // NOTE: a damaged header may leave /dev/null as the only name, which is never the file to patch.
+        const auto& path = options.reverse_patch ? patch.old_file_path : patch.new_file_path;
+        if (path != "/dev/null")
+            return path;
+    }
+
+    return {};
+}
 
 struct PermissionResult {
     filesystem::perms old_permissions { filesystem::perms::none };
@@ -483,7 +504,7 @@ void write_patched_result_to_file(const Patch& patch, const std::string& output_
                 backup->make_backup_for(output_file_path);
             filesystem::symlink(symlink_target, output_file_path);
         } else {
-            deferred_writer.deferred_write(std::move(patched_file), output_file_path, std::move(prepare_callback), std::move(permission_callback));
+            deferred_writer.deferred_write(std::move(patched_file), output_file_path, patch.operation == Operation::Rename || patch.operation == Operation::Copy, std::move(prepare_callback), std::move(permission_callback));
         }
     } else {
         prepare_callback(output_file_path);
@@ -551,7 +572,7 @@ int process_patch(const Options& options)
         if (options.verbose)
             out << "Hmm...  Looks like a " << to_string(info.format) << " diff to me...\n";
 
-        auto file_to_patch = options.file_to_patch.empty() ? guess_filepath(patch, options) : options.file_to_patch;
+        auto file_to_patch = options.file_to_patch.empty() ? guess_filepath(patch, options, deferred_writer) : options.file_to_patch;
 
         if (file_to_patch.empty()) {
             out << "can't find file to patch at input line " << parser.line_number()
@@ -608,15 +629,22 @@ int process_patch(const Options& options)
         if (permission_result.old_permissions == filesystem::perms::unknown && (patch.operation == Operation::Rename || patch.operation == Operation::Copy))
             permission_result.old_permissions = filesystem::get_permissions(file_to_patch);
 
-        File input_file;
-        // The file to patch is only ever read from, the result is written out separately.
-        input_file.open(file_to_patch, (mode & std::ios::binary) | std::ios_base::in);
-        if (!input_file && (errno != ENOENT || !is_adding_file(patch, options)))
-            throw std::system_error(errno, std::generic_category(), "Unable to open input file " + file_to_patch);
+        std::vector<Line> input_lines;
+        if (File* pending_file = deferred_writer.pending_write_to(file_to_patch)) {
+            // An earlier patch of this run has already changed this file, but its result is yet to be written out.
+            File pending_content = File::create_temporary_with_content(pending_file->read_all_as_string());
+            input_lines = file_as_lines(pending_content);
+        } else {
+            File input_file;
+            // The file to patch is only ever read from, the result is written out separately.
+            input_file.open(file_to_patch, (mode & std::ios::binary) | std::ios_base::in);
+            if (!input_file && (errno != ENOENT || !is_adding_file(patch, options)))
+                throw std::system_error(errno, std::generic_category(), "Unable to open input file " + file_to_patch);
 
-        const auto input_lines = file_as_lines(input_file);
+            input_lines = file_as_lines(input_file);
 
-        input_file.close();
+            input_file.close();
+        }
 
         if (!patch.prerequisite.empty() && !has_prerequisite(input_lines, patch.prerequisite))
             check_prerequisite_handling(out, options, patch.prerequisite);
